@@ -251,7 +251,7 @@ var Ops = []*Op{
 					sh.Deliver = "prefix"
 					switch {
 					case len(sh.Want) > 0 && len(sh.Want[0].Value) > 1 && errors.Is(err, io.ErrShortBuffer):
-						return "", nil
+						return "", io.ErrShortBuffer // Outcome: "shortbuf"
 					case len(sh.Want) > 0 && len(sh.Want[0].Value) > 1 && err == nil:
 						return "", errors.New("verif: a value longer than the buffer was read without io.ErrShortBuffer")
 					}
@@ -457,6 +457,9 @@ func Outcome(err error) string {
 	}
 	if errors.Is(err, io.ErrNoProgress) {
 		return "fail:noprogress"
+	}
+	if err == io.ErrShortBuffer {
+		return "shortbuf" // only from the "ReadSmall" fetch variant, where it is the expected answer
 	}
 	return "fail"
 }
